@@ -656,9 +656,13 @@ class Interp:
                     return vv
                 if isinstance(t, ast.Name):
                     s.env[t.id] = norm(t.id, v)
-                elif isinstance(t, ast.Tuple):
-                    for el, vv in zip(t.elts, v[1]):
-                        s.env[el.id] = norm(el.id, vv)
+                elif isinstance(t, ast.Tuple) and all(isinstance(el, ast.Name) for el in t.elts):
+                    if isinstance(v, tuple) and len(v) > 1 and v[0] == 'tuple' and len(v[1]) == len(t.elts):
+                        for el, vv in zip(t.elts, v[1]):
+                            s.env[el.id] = norm(el.id, vv)
+                    else:
+                        for el in t.elts:          # unpacking something that is not a tuple display: the parts are unknown values
+                            s.env[el.id] = ('opaque',)
                 else:
                     raise Unsupported('assign target')
                 res.append((s, 'next', None))
